@@ -120,6 +120,7 @@ func drive(o vh.Opts, r *vh.Rng, rep *vh.Report, cb *caseBuf, p parser, nflip in
 		rep.Fail(failKey(p.name, "valid-message-refused"), fmt.Sprintf("the valid message is not accepted (panic=%v %s err=%v)", pan, msg, err), describe(p.valid))
 		return
 	}
+	nmodel := 0
 	for _, x := range mutations(r, p.valid, o.Thorough, nflip, p.blocks, p.at) {
 		var err error
 		pan, msg := vh.Try(func() { err = p.run(append([]byte{}, x.b...)) })
@@ -138,7 +139,8 @@ func drive(o vh.Opts, r *vh.Rng, rep *vh.Report, cb *caseBuf, p parser, nflip in
 				map[string]interface{}{"parser": p.name, "class": x.class, "input": describe(x.b), "panic": msg})
 			cls = 98
 		}
-		if p.class != nil && !o.Search {
+		nmodel++
+		if p.class != nil && !o.Search && (o.Thorough || x.class == "valid" || strings.HasPrefix(x.class, "truncated") || x.class == "extended" || nmodel%3 == 0) {
 			cb.add(p.kind, fmt.Sprintf("(%s, %d, %d)", vh.CoqBytes(x.b), fl, cls))
 		}
 	}
